@@ -13,9 +13,14 @@
         scenario = clean | cancel0 | fail:<k> | hold:<w>:<j>    (worker w frozen after j entries,
                    everything else runs until quiescent, parent cancel, release)
       →  res=<ok|err|none> cp=<0|1>
+
+  allocation (Model/RdbAlloc):
+    c04alloc <step> <n> <avail>          →  <len(p) of ReadBytes(n) over a source of avail bytes> <ok|err>
+    c04lzf <outlen> <inlen>              →  alloc | refused
 -/
 import GunYu.Model.RdbFrame
 import GunYu.Model.RdbFanout
+import GunYu.Model.RdbAlloc
 namespace GunYu.Drive.C04
 open GunYu
 
@@ -109,6 +114,18 @@ def handle : List String → Option (List String)
       | none => some ["bad-op"]
     | _, _, _ => some ["bad-op"]
   | "c04fan" :: toks => some [(fan toks).getD "bad-op"]
+  -- c04alloc <step> <n> <avail>: length of the buffer ReadBytes(n) returns over a source of <avail> bytes, ok|err
+  | ["c04alloc", step, n, avail] =>
+    match step.toNat?, n.toNat?, avail.toNat? with
+    | some step, some n, some avail =>
+      let r := RdbAlloc.readBytes step n avail
+      some [s!"{r.1} {if r.2 then "ok" else "err"}"]
+    | _, _, _ => some ["bad-op"]
+  -- c04lzf <outlen> <inlen>: does lzfDecompress allocate, or refuse the length field first
+  | ["c04lzf", outlen, inlen] =>
+    match outlen.toNat?, inlen.toNat? with
+    | some o, some i => some [if (RdbAlloc.lzfAlloc (Int.ofNat o) i).isSome then "alloc" else "refused"]
+    | _, _ => some ["bad-op"]
   | _ => none
 
 end GunYu.Drive.C04
